@@ -224,3 +224,30 @@ def root_local(t):
         else:
             return None
     return None
+
+
+def _span_key(span):
+    import re
+    m = re.match(r"^(.*?):(\d+):(\d+)-(\d+):(\d+)", span or "")
+    if not m:
+        return None
+    return (m.group(1), (int(m.group(2)), int(m.group(3))), (int(m.group(4)), int(m.group(5))))
+
+
+def env_at(parents, target, mutated=frozenset(), base=None):
+    """Environment of let-bound (immutable) locals visible at `target`, given its ancestor chain from
+    facts.walk: the lets of every enclosing block that end before the target starts."""
+    env = Env(base)
+    tk = _span_key(target.get("span"))
+    for anc, _key in parents:
+        if isinstance(anc, dict) and "stmts" in anc:
+            for st in anc["stmts"]:
+                if st.get("s") != "Let":
+                    continue
+                sk = _span_key(st.get("span"))
+                if tk and sk and sk[0] == tk[0] and sk[2] <= tk[1]:
+                    if "init" in st and "els" not in st:
+                        bind_pattern(st["pat"], term(st["init"], env, mutated), env)
+                    else:
+                        bind_pattern(st["pat"], None, env)
+    return env
